@@ -448,7 +448,13 @@ func privateScalarProvenance(c *an.Check) {
 		for _, b := range an.ScanBlocks(pk) {
 			for _, ins := range b.Instrs {
 				call, isCall := ins.(*ssa.Call)
-				if !isCall || !call.Call.IsInvoke() || call.Call.Method.Name() != "Write" {
+				if !isCall {
+					continue
+				}
+				// h.Write(x) on a hash, or the one-shot sha512.Sum512(x)
+				isWrite := call.Call.IsInvoke() && call.Call.Method.Name() == "Write"
+				isSum := an.IsCallTo(call, an.X("crypto/sha512", "", "Sum512"))
+				if !isWrite && !isSum {
 					continue
 				}
 				sl, isSl := an.ConvOf(call.Call.Args[0]).(*ssa.Slice)
